@@ -12,6 +12,10 @@ CATS = [('Subscriptions', 'Streaming'), ('Food', 'Coffee'), ('Transport', 'Rides
 TAGS = ['recurring', 'business', 'fun', 'essential', 'income', 'transfer', 'investment', 'refund']
 
 
+DYNAMIC_TAGS = ['{extract(field.memo, "PROJ:(\\\\w+)")}', '{split(description, " ", 0)}', '{split(field.holder, trim(" "), 0)}',
+                '{lowercase(extract("(\\\\w+) r"))}', '{extract(description, "(A|B),(C)")}', '{regex_replace(description, "(\\\\d+), (\\\\d+)", "")}',
+                '{source}', '{substring(description, 0, 3)}']
+
 # comment lines that look like something else or end in characters a sloppy line reader trips over
 TRICKY_COMMENTS = ['# exported from C:\\Users\\me\\budget\\', '# trailing backslash \\', '#', '#=', '# a = b', '# [Fake Section]',
                    '# priority: high', '# "unbalanced', "# it's", '# tab\there', '# caf\u00e9 \u2013 notes', '#\\', '# filter:', '# x: y: z',
@@ -150,6 +154,9 @@ def gen_rules_model(rng, n, fields=(), sources=(), simple=False, supplemental=No
                 rule['fields'].append(['code', 'extract("r(\\\\d+)")'])
             if rng.random() < 0.1 and fields:
                 rule['tags'] = rule['tags'] + ['{field.%s}' % rng.choice(list(fields))]
+            if rng.random() < 0.15:
+                # a dynamic tag is one tag, whatever commas and parenthesised groups its expression contains
+                rule['tags'] = rule['tags'] + [rng.choice(DYNAMIC_TAGS)]
             if supplemental and rng.random() < 0.25:
                 rule['match'] = '(%s) and any(r.amount == txn.amount for r in %s)' % (rule['match'], supplemental)
         model['rules'].append(rule)
